@@ -80,7 +80,7 @@ pub fn check_client(sc: &CScenario) -> CaseResult {
                 classes.push("client:cap1");
             }
             let nontrivial = sc.cfg.cap == 1 && st.not_ready_seen && st.sends_after_not_ready >= 2;
-            Ok(CaseOk { nontrivial, classes, excluded_known: 0 })
+            Ok(CaseOk { nontrivial, classes, excluded_known: run.excluded_known })
         }
     }
 }
